@@ -1,7 +1,7 @@
 """Structured random generator of macro invocations (items with attributes), used by several
 properties.  Every random choice derives from the one `random.Random` passed in."""
 from . import sx
-from .pool import FIELD_TYPES, FOREIGN_ATTRS, VIS
+from .pool import FIELD_TYPES, FOREIGN_ATTRS, FOREIGN_PATH_ATTRS, VIS
 
 BINOPS = ['Add', 'BitAnd', 'BitOr', 'BitXor', 'Div', 'Mul', 'Rem', 'Shl', 'Shr', 'Sub']
 STRUCT_ONLY = BINOPS + [b + 'Assign' for b in BINOPS] + ['Neg', 'Not', 'Deref', 'DerefMut']
@@ -52,7 +52,7 @@ class Gen:
 
     # ---- attributes ---------------------------------------------------------------------
     def foreign(self):
-        return sx.a_other(self.pick(FOREIGN_ATTRS))
+        return sx.a_other(self.pick(FOREIGN_PATH_ATTRS if self.chance(0.3) else FOREIGN_ATTRS))
 
     def derive_ex_attr(self, traits, feats, where):
         """a #[derive_ex(Trait(bound(..)), bound(..))] on a variant or field"""
